@@ -34,10 +34,19 @@ theorem c14_never_unrawable :
 theorem c14_type_name_not_self (n : String) : xmlNameToRustName n ≠ "Self" := by
   unfold xmlNameToRustName
   simp only
-  by_cases h : (Inflector.toPascalCase n == "Self") = true
-  · simp [h]
-  · simp only [h]
-    simpa using h
+  cases h : (Inflector.toPascalCase n).toList with
+  | nil => simp
+  | cons c cs =>
+    simp only
+    by_cases hd : Inflector.isDigitA c = true
+    · simp only [hd, if_true]
+      intro he
+      have := congrArg String.toList he
+      simp [h] at this
+    · by_cases hs : (Inflector.toPascalCase n == "Self") = true
+      · simp [hd, hs]
+      · simp only [hd, hs]
+        simpa using hs
 
 /-- a numeric facet is emitted as a number that was parsed from the schema text — never as the text:
     the emitted chunk is built from `toString` of an `Int` -/
